@@ -13,12 +13,14 @@ import Driver.Emit
 import Driver.RoundTrip
 import Driver.Limits
 import Driver.Lifecycle
+import Driver.WriteQueue
+import Driver.EventLoop
 
 open Drv
 
 def dispatch (line : String) : String :=
   let ws := words line
-  let ops : List (List String → Option String) := [base64Op, mimeOp, netOp, headersOp, cookieOp, parserOp, routerOp, promiseOp, queueOp, promiseMTOp, emitOp, roundTripOp, limitsOp, lifeOp]
+  let ops : List (List String → Option String) := [base64Op, mimeOp, netOp, headersOp, cookieOp, parserOp, routerOp, promiseOp, queueOp, promiseMTOp, emitOp, roundTripOp, limitsOp, lifeOp, writeQueueOp, stallOp]
   match ops.findSome? (fun f => f ws) with
   | some r => r
   | none => "bad-op"
